@@ -78,6 +78,47 @@ Result(o, pk, ix, b1, f1, b2, f2, ml) ==
                   ELSE IF member /\ Len(final) < ml THEN "accept"
                   ELSE IF member /\ Len(final) = ml THEN "free" ELSE "reject"]
 
+(* ---- several jumps: each sub-move shoots from the segment the last successful one left; at least one must succeed ---- *)
+SubMove(seg, ix, b1, f1, ml) ==
+  LET xs    == seg[ix]
+      wb    == Limited(Walk(xs, b1, M - 1, C, Wall), ml - 1)
+      wf    == Limited(Walk(xs, f1, M - 1, C, Wall), ml - Len(wb[1]) + 1)
+      trial == RevSeq(wb[1]) \o Tail(wf[1])
+  IN [trial |-> trial, backOk |-> wb[2], ok |-> wb[2] /\ wf[2] /\ SeqMinI(trial) <= M - 1,
+      scripted |-> Scripted(xs, b1, M - 1, C, ml - 1) /\ (wb[2] => Scripted(xs, f1, M - 1, C, ml - Len(wb[1]) + 1))]
+Extend(seg, b2, f2, ml) ==
+  LET first == seg[1]
+      needB == In(first, L, R)
+      wbk   == Limited(Walk(first, b2, L, R, Wall), ml)
+      past  == IF needB THEN Trunc(RevSeq(wbk[1]) \o Tail(seg), ml) ELSE seg
+      last  == past[Len(past)]
+      needF == In(last, L, R)
+      wfw   == Limited(Walk(last, f2, L, R, Wall), ml)
+      full  == IF needF THEN SubSeq(past, 1, Len(past) - 1) \o wfw[1] ELSE past
+      final == IF OutL(full[1], L) THEN full ELSE RevSeq(full)
+  IN [needB |-> needB, needF |-> needF, path |-> final,
+      member |-> (needB => wbk[2]) /\ (needF => wfw[2]) /\ MemberPlus(final, L, M, R),
+      scripted |-> (needB => Scripted(first, b2, L, R, ml)) /\ (needF => Scripted(last, f2, L, R, ml))]
+(* a case of two jumps: <<old, pick, ix1, b1, f1, ix2, b2, f2, eb, ef, ml>> *)
+Result2(c) ==
+  LET o == c[1]  ml == c[11]
+      sg   == Segments(o)[c[2]]
+      seg0 == SubSeq(o, sg[1], sg[2])
+      ok1i == c[3] >= 2 /\ c[3] <= Len(seg0) - 1
+      j1   == IF ok1i THEN SubMove(seg0, c[3], c[4], c[5], ml) ELSE [trial |-> seg0, backOk |-> FALSE, ok |-> FALSE, scripted |-> FALSE]
+      seg1 == IF j1.ok THEN j1.trial ELSE seg0
+      ok2i == c[6] >= 2 /\ c[6] <= Len(seg1) - 1
+      j2   == IF ok2i THEN SubMove(seg1, c[6], c[7], c[8], ml) ELSE [trial |-> seg1, backOk |-> FALSE, ok |-> FALSE, scripted |-> FALSE]
+      seg2 == IF j2.ok THEN j2.trial ELSE seg1
+      any  == j1.ok \/ j2.ok
+      ex   == Extend(seg2, c[9], c[10], ml)
+  IN [feasible |-> ok1i /\ ok2i /\ j1.scripted /\ j2.scripted /\ (any => ex.scripted),
+      back1 |-> j1.backOk, back2 |-> j2.backOk, ok1 |-> j1.ok, ok2 |-> j2.ok, seglen1 |-> Len(seg1),
+      needB |-> any /\ ex.needB, needF |-> any /\ ex.needF, path |-> ex.path, sub |-> seg2,
+      verdict |-> IF ~any THEN "reject"
+                  ELSE IF ex.member /\ Len(ex.path) < ml THEN "accept"
+                  ELSE IF ex.member /\ Len(ex.path) = ml THEN "free" ELSE "reject"]
+
 Init == /\ old \in OldPaths
         /\ pick \in 1..Len(Segments(old))
         /\ idx \in 2..(Segments(old)[pick][2] - Segments(old)[pick][1])      \* an interior frame of the segment
